@@ -38,9 +38,11 @@ TRun ==
      /\ Chk("loop_stops_at_first_iteration_where_the_rule_says",
             StopsExactlyWhenRuleSays(rec, Ev.iteration, sLoop))
      /\ Chk("best_iteration_minimises_validation_loss_in_final_patience_window",
-            Ev.iteration >= Ev.user_p - 1 =>
-               /\ Ev.iteration_best = WhichBest(Ev.iteration, full, Ev.user_p)
-               /\ BestInWindow(Ev.iteration, full, Ev.user_p, Ev.iteration_best))
+            \* (a patience window longer than the iteration limit is the whole history)
+            LET pe == IF Ev.user_p > Ev.max_iter THEN Ev.max_iter ELSE Ev.user_p IN
+            Ev.iteration >= pe - 1 =>
+               /\ Ev.iteration_best = WhichBest(Ev.iteration, full, pe)
+               /\ BestInWindow(Ev.iteration, full, pe, Ev.iteration_best))
      /\ Chk("returned_position_is_recorded_position_at_best_iteration",
             IF Ev.restore THEN Ev.position = Ev.hist_position[Ev.iteration_best + 1]
             ELSE Ev.position = Ev.hist_position[Ev.iteration + 1])
